@@ -8,7 +8,8 @@ RULE = _base.SPACE_TEXT + (
     "oracle: at most one body entry and one task per job; when a scheduler's "
     "run returns True every non-forever direct job has exactly one body entry"
     " and an end (or non-critical raise) event before the run's end. "
-    "non-trivial = a success verdict with a tie between completions, a "
+    "extra alphabet: a body that ends by raising CancelledError by itself "
+    "(counts as the job's own end). non-trivial = a success verdict with a tie between completions, a "
     "forever job that ended before the run, or a windowed scheduler")
 globals().update(_base.std(monitors.c02))
 
